@@ -97,7 +97,7 @@ func sp(s string) *string { return &s }
 
 func (m c20) genShape(r *RNG) c20shape {
 	var sh c20shape
-	jsonNames := []string{"a", "b", "ab", "name", "id", "x-y", "f_1", "A", "Name", "AB", "aB"}
+	jsonNames := []string{"a", "b", "ab", "name", "id", "x-y", "f_1", "A", "Name", "AB", "aB", "-", "-", "--", "-x"}
 	nf := r.Range(0, 7)
 	for i := 0; i < nf; i++ {
 		f := c20field{Name: fmt.Sprintf("F%d", i)}
@@ -631,6 +631,7 @@ func c20compareType(exp c20expect, name string, attrs map[string]jsonapi.Attr, r
 }
 
 func (m c20) Directed(c *Ctx) {
+	sameNameCheck(c, "C20")
 	r := NewRNG(7)
 	mk := func(fs ...c20field) c20shape { return c20shape{Fields: fs} }
 	id := c20field{Name: "ID", Go: "string", JSON: sp("id"), API: sp("t")}
